@@ -122,7 +122,9 @@ class Sched:
         a = self.current
         if a is None:
             return None
-        if a.dead:
+        if a.dead or self.crashed:
+            # the process is dead until the world starts the next incarnation (new_epoch): whatever the
+            # unwinding code under test still tries to do (finally blocks, close() flushing) has no effect
             self._die(a)
         self.step += 1
         if self.step > self.step_cap:
@@ -160,7 +162,7 @@ class Sched:
             if not pred():
                 raise HarnessAbort("wait() outside the simulation would block forever")
             return
-        if a.dead:
+        if a.dead or self.crashed:
             self._die(a)
         self.step += 1
         if self.step > self.step_cap:
